@@ -100,5 +100,13 @@ CHECKS += [
          technique="property-based testing of the real decision function over a fake server with a decision-table oracle"),
 ]
 
+CHECKS += [
+    dict(property_id="C19", category="exploration",
+         text="Unit half: the real Syncer and Controller run as a rapid state machine over in-memory implementations of the package's own DCS / Node / Cluster interfaces (registries with status new/enabled, lags around both marks, settings equal/relaxed/other, role changes, host removal, settings changed by hand, a drawn call of a drawn method failing); the oracle checks every DeleteHosts at the instant it happens (settings restored, or host no longer in the cluster) and the post-conditions of every Sync that returned nil. Simulation half: clusters with registered relaxed replicas and lagging targets go through every request kind; at the promotion instant the promoted node must be neither registered nor relaxed. One defect found by the unit half is recorded as a known finding.",
+         design_ref="DESIGN.md section 4, C19",
+         note="Trusted: 'restored' means the master's settings or the fully durable defaults the code falls back to when the master's settings cannot be read.",
+         technique="stateful model-based property testing of the real Syncer/Controller over in-memory interface implementations with fault injection + instant-of-promotion oracle in the cluster simulation"),
+]
+
 _claimed = {c["property_id"] for c in CHECKS}
 NOT_APPLICABLE = [dict(property_id=p, reason="check not built yet in this revision (framework under construction; see DESIGN.md build order)") for p in ALL if p not in _claimed]
